@@ -32,6 +32,16 @@ impl Rng {
         let i = self.below(fixed.len() as u64 + 1) as usize;
         if i == fixed.len() { f(r) } else { fixed[i] }
     }
+    /// `lo + below(n)` random octets
+    pub fn bytes_below(&mut self, lo: usize, n: u64) -> Vec<u8> {
+        let k = lo + self.below(n) as usize;
+        self.bytes(k)
+    }
+    /// random octets of one of the given lengths
+    pub fn bytes_of(&mut self, lens: &[usize]) -> Vec<u8> {
+        let k = *self.pick(lens);
+        self.bytes(k)
+    }
     pub fn bytes(&mut self, n: usize) -> Vec<u8> {
         (0..n).map(|_| self.next() as u8).collect()
     }
